@@ -25,6 +25,11 @@ type Node struct {
 
 	mu    sync.Mutex
 	exits []int
+
+	// OnExit, if set, is called synchronously inside Store.Exit, i.e. at the
+	// instant the real process would be gone (used to freeze a copy of the data
+	// directory: whatever the zombie does afterwards never happened).
+	OnExit func(code int)
 }
 
 // Options configure a node before it is opened.
@@ -50,7 +55,11 @@ func New(dir string, o Options) *Node {
 	s.Exit = func(code int) {
 		n.mu.Lock()
 		n.exits = append(n.exits, code)
+		fn := n.OnExit
 		n.mu.Unlock()
+		if fn != nil {
+			fn(code)
+		}
 	}
 	if o.Configure != nil {
 		o.Configure(s)
